@@ -231,7 +231,7 @@ def mstep (σ : State) : MAct → Option State
   | .hWrite lo T id =>
     match σ.mpc with
     | .idle =>
-      if decide (σ.headMin < T) && decide (lo ≤ σ.headMin) && !(blockIds σ).contains id then
+      if decide (σ.headMin < T) && decide (lo ≤ σ.headMin) && !(blockIds σ).contains id && !σ.removed.contains id then
         let b : Blk := { id := id, lo := lo, hi := T - 1,
                          samples := σ.data.filter fun s => !s.ooo && decide (σ.headGc ≤ s.t)
                                       && decide (lo ≤ s.t) && decide (s.t ≤ T - 1) }
@@ -285,7 +285,7 @@ def mstep (σ : State) : MAct → Option State
       -- every collected sample lies in one of the written block ranges
       if (σ.data.all fun s => !s.ooo || decide (s.ref ≤ σ.oooGc) || decide (r < s.ref)
             || metas.any fun m => decide (m.2.1 ≤ s.t) && decide (s.t ≤ m.2.2))
-         && (metas.all fun m => !(blockIds σ).contains m.1) then
+         && (metas.all fun m => !(blockIds σ).contains m.1 && !σ.removed.contains m.1) then
         some { σ with mpc := .oWritten r (metas.map (mkOOOBlock σ r)) }
       else none
     | _ => none
@@ -318,7 +318,7 @@ def mstep (σ : State) : MAct → Option State
     match σ.mpc with
     | .idle =>
       let samples := (σ.blocks.filter fun b => ps.contains b.id).flatMap (·.samples)
-      if !ps.isEmpty && !(blockIds σ).contains id && !ps.contains id
+      if !ps.isEmpty && !(blockIds σ).contains id && !σ.removed.contains id && !ps.contains id
          && (ps.all fun p => (blockIds σ).contains p)
          && (samples.all fun s => decide (lo ≤ s.t) && decide (s.t ≤ hi)) then
         some { σ with mpc := .cWritten ps { id := id, lo := lo, hi := hi, samples := samples } }
